@@ -12,7 +12,9 @@ Proof.
   { inversion Hs; subst; clear Hs. constructor; unfold held, hand; cbn; rewrite ?Ec; fin. }
   destruct popw. { inversion Hs; subst; clear Hs. constructor; unfold held, hand; cbn; rewrite ?Ec; fin. }
   destruct ptask; cbn in Hs.
-  2:{ inversion Hs; subst; clear Hs. constructor; unfold held, hand; cbn; rewrite ?Ec; fin. }
+  2:{ inversion Hs; subst; clear Hs. unfold recv_stopped; cbn.
+      destruct queue as [|m q]; cbn; [destruct flag; cbn | destruct m; cbn];
+        constructor; unfold held, hand; cbn; rewrite ?Ec; try (timeout 60 fin). }
   inversion Hs; subst; clear Hs.
   unfold recv_loop; cbn.
   destruct queue as [|m q]; cbn.
